@@ -240,6 +240,13 @@ def run(ctx):
                 fs = 0.125 if nm not in ADAPTIVE else None
                 low_order = "Heun-Euler" in nm or nm in ("AHE", "HeunEulerSolver")
                 cases.append(dict(section="facade", method=nm, span=list(span), shape=[2], t_eval=None, dense=False, tol=(1e-5 if (low_order and tol) else tol), max_step=None, first_step=fs, by_hand=not heavy))
+    # state shapes of every rank without t_eval (incl. non-square matrix states)
+    for nm in ("RK45", "DOPRI45", "RK4", "RK87") + (() if ctx.quick else ("RadauIIA5", "ImplicitMidpoint")):
+        for span in fwd + [(1.0, -1.0)]:
+            for shape in ([1], [2, 2], [2, 3], [3, 1, 2]):
+                for dense in (False, True):
+                    cases.append(dict(section="facade", method=nm, span=list(span), shape=shape, t_eval=None, dense=dense, tol=1e-8, max_step=None,
+                                      first_step=0.125 if nm == "RK4" else None, by_hand=True))
     for nm in ("RK45CKSolver", "RK4Solver", "ABAs5o6HSolver", "ImplicitMidpoint"):
         cases.append(dict(section="facade", method=nm, as_class=True, span=[0.0, 2.0], shape=[2], t_eval=None, dense=True, tol=1e-8, max_step=None, first_step=0.125, by_hand=True))
     # S2: t_eval subsets
